@@ -63,6 +63,9 @@ func c17wrap(k byte, rng *core.Rng, variant int) hs.Wrap {
 			}
 			return w
 		}
+		if rng.Intn(4) == 0 {
+			return hs.Wrap{K: 'o', S: core.Pick(rng, []string{"/go/src/app/handlers/query.go", "dir/", "./rel/path.c", "C:\\src\\win.c", "/", "a//b.go", "../up.go"}), Line: 42, Fn: txt("fn")}
+		}
 		return hs.Wrap{K: 'o', S: txt("file") + ".go", Line: core.Pick(rng, []int32{0, 1, 7, 258, 65536, 1<<31 - 1, 16777216, 256, 10}), Fn: txt("fn")}
 	case 'n':
 		return hs.Wrap{K: 'n', S: txt("constraint")}
